@@ -91,3 +91,14 @@ Definition py_strip (s : string) : string := PyStr.strip s.
 Definition py_unpack2g {A} (l : list A) : outcome (A * A) := match l with [a; b] => Ok (a, b) | _ => Raise ValueError end.
 Fixpoint py_srec_get (d : list (string * string)) (k : string) : outcome string :=
   match d with [] => Raise KeyError | (k', v) :: t => if String.eqb k' k then Ok v else py_srec_get t k end.
+
+(* ---- the IPSet leftovers (unit pysrc_sets_g_gen.v) ---- *)
+(* repr() of a list of str: each item in single quotes, joined by ', ', in brackets.  Faithful for items made of printable ASCII
+   characters other than the quote and the backslash (Python then writes the text unchanged between single quotes); any other item
+   is Unsupported (it would be escaped, or quoted differently). *)
+Definition py_repr_plain (c : ascii) : bool :=
+  let n := Z.of_nat (nat_of_ascii c) in (32 <=? n) && (n <? 127) && negb (n =? 39) && negb (n =? 92).
+Definition py_repr_str (s : string) : outcome string :=
+  if forallb py_repr_plain (PyStr.chars s) then Ok (String.append "'" (String.append s "'")) else Raise Unsupported.
+Definition py_repr_strlist (l : list string) : outcome string :=
+  do items <- py_map_og py_repr_str l; Ok (String.append "[" (String.append (PyStr.join ", " items) "]")).
